@@ -776,7 +776,8 @@ def t_block():
         body = loops[0].body
         ok = ast.unparse(body[0]).startswith('results = self.impulse_nonlinear(ss, inputs | U, actual_outputs | targets, internals, Js, options, ss_initial')
         last = body[-1]
-        ok = ok and isinstance(last, ast.If) and ast.unparse(last.test) == "all((v < options['tol'] for v in errors.values()))" and isinstance(last.body[0], ast.Break) \
+        # the block's own solver options are read from `options` (before the repair of D28: the name was rebound, losing the per-block options) or from `own_options`
+        ok = ok and isinstance(last, ast.If) and ast.unparse(last.test) in ("all((v < options['tol'] for v in errors.values()))", "all((v < own_options['tol'] for v in errors.values()))") and isinstance(last.body[0], ast.Break) \
             and ast.unparse(last.orelse[0]) == 'U += H_U_factored.apply(results)'
         ok = ok and "errors = {k: np.max(np.abs(results[k])) for k in targets}" in src and 'return (inputs | U)[inputs_as_outputs] | results' in src
     facts['newton_loop_shape'] = ok
